@@ -20,6 +20,8 @@ RULE = ("cases = every exported stepper class x D x N odd/even x ETDRK order; tr
 REQUIRED = {"translation": {"quick": 300, "thorough": 1500}, "permutation": {"quick": 100, "thorough": 500}, "embedding": {"quick": 100, "thorough": 500}}
 ASSUMPTIONS = ["axis permutation is asserted for isotropic configurations only; on even N with odd-order linear terms the state is made Nyquist-free (the property's precondition)",
                "float64; tolerance 1e-10 of the state scale (translation of a compiled FFT pipeline is exact only to rounding)"]
+AMBIENT = True            # thorough tier: the repository's own test-suite runs under this property's general monitor (rv/ambient.py)
+REQUIRED_AMBIENT = {'ambient_translation': 200}
 TIMEOUT = {"quick": 1200, "thorough": 3200}
 TOL = 2e-10
 
